@@ -293,6 +293,9 @@ var kC07Check = register(&Kind[c07Check]{
 			Spare:   rapid.IntRange(0, 16).Draw(t, "spare"),
 			Mut:     rapid.IntRange(0, 3).Draw(t, "mut"),
 		}
+		if rapid.IntRange(0, 9).Draw(t, "longpayload") == 0 { // up to what the byte-level kinds use, and the lengths just below it
+			c.Payload = genBytesN(t, "payload", rapid.SampledFrom([]int{127, 128, 255, 256, 300, 400, 500, 508, 509, 510, 511, 512}).Draw(t, "longlen"))
+		}
 		c.Pos = rapid.IntRange(0, 200).Draw(t, "pos")
 		c.Delta = rapid.Byte().Draw(t, "delta")
 		c.TruncLen = rapid.IntRange(0, 8).Draw(t, "trunc")
@@ -576,6 +579,9 @@ var kC07Conv = register(&Kind[c07Conv]{
 			from, to = 5, 8
 		}
 		n := rapid.IntRange(0, 70).Draw(t, "n")
+		if rapid.IntRange(0, 7).Draw(t, "longconv") == 0 { // hundreds of groups: whatever is done in blocks has several of them
+			n = rapid.SampledFrom([]int{79, 80, 81, 159, 160, 161, 200, 255, 256, 257, 319, 320, 321, 500, 1000}).Draw(t, "nlong")
+		}
 		data := genBytesN(t, "data", n)
 		for i := range data {
 			data[i] &= byte(1<<from - 1)
